@@ -1335,6 +1335,17 @@ func toInt(v interface{}) (int, error) {
 		return 0, nil
 	}
 
+	// the other integer and float widths, and named number types
+	rv := reflect.ValueOf(v)
+	switch rv.Kind() {
+	case reflect.Int, reflect.Int8, reflect.Int16, reflect.Int32, reflect.Int64:
+		return int(rv.Int()), nil
+	case reflect.Uint, reflect.Uint8, reflect.Uint16, reflect.Uint32, reflect.Uint64, reflect.Uintptr:
+		return int(rv.Uint()), nil
+	case reflect.Float32, reflect.Float64:
+		return int(rv.Float()), nil
+	}
+
 	return 0, fmt.Errorf("cannot convert %T to int", v)
 }
 
